@@ -152,6 +152,9 @@ func renderFile(r *Request, f *File, deps []string) *descriptor.FileDescriptorPr
 		Dependency: deps,
 		Options:    &descriptor.FileOptions{},
 	}
+	if f.GoPackage != "" {
+		fd.Options.GoPackage = proto.String(r.ImportBase + "/" + f.GoPackage)
+	}
 	must(proto.SetExtension(fd.Options, gogoproto.E_MarshalerAll, proto.Bool(false)))
 	must(proto.SetExtension(fd.Options, gogoproto.E_UnmarshalerAll, proto.Bool(false)))
 	must(proto.SetExtension(fd.Options, gogoproto.E_GoprotoGettersAll, proto.Bool(false)))
@@ -268,6 +271,12 @@ func must(err error) {
 
 // BuildRequest renders the abstract request into a CodeGeneratorRequest with the given parameter string.
 func BuildRequest(r *Request, param string) *plugin.CodeGeneratorRequest {
+	return BuildRequestFor(r, param, r.File.Name)
+}
+
+// BuildRequestFor is BuildRequest with another file of the request as the file to generate (a dependency file that has a Go
+// package of its own needs its .pb.go too).
+func BuildRequestFor(r *Request, param string, generate string) *plugin.CodeGeneratorRequest {
 	files := WellKnown()
 	base := []string{"gogoproto/gogo.proto", "google/protobuf/timestamp.proto", "google/protobuf/duration.proto"}
 	var depNames []string
@@ -279,7 +288,7 @@ func BuildRequest(r *Request, param string) *plugin.CodeGeneratorRequest {
 	// (`extend google.protobuf.FieldOptions`): its Go package then appears among the imports of both generated files
 	files = append(files, renderFile(r, &r.File, append(append([]string{"google/protobuf/descriptor.proto"}, base...), depNames...)))
 	return &plugin.CodeGeneratorRequest{
-		FileToGenerate: []string{r.File.Name},
+		FileToGenerate: []string{generate},
 		Parameter:      proto.String(param),
 		ProtoFile:      files,
 	}
